@@ -1,14 +1,205 @@
-//! (rules to be transcribed)
+//! MT104 — documented rules (doc comments and rule texts of validate_* in /repo/src/messages/mt104.rs,
+//! SR2025 MT104 C1..C12, and the field 23E code rules T47/D81). C13 (field 119 of the user header, C94)
+//! concerns block 3 and is not documented in the library; it is out of scope here.
 use super::*;
 
-pub fn expected(_v: &RView) -> Expect {
+const VALID_23E_A: &[&str] = &["AUTH", "NAUT", "OTHR", "RFDD", "RTND"];
+const VALID_23E_B: &[&str] = &["AUTH", "NAUT", "OTHR"];
+
+/// the fields of the settlement sequence C live in `top()` next to sequence A; sequence A never
+/// contains these tags
+pub(super) fn is_seq_c_tag(tag: &str) -> bool {
+    matches!(tag, "32B" | "19" | "71F" | "71G") || tag_is(tag, "53*")
+}
+
+pub(super) fn split_top<'a>(v: &RView<'a>) -> (Fs<'a>, Fs<'a>) {
+    let top = v.top();
+    let a = top.iter().filter(|f| !is_seq_c_tag(&f.tag)).copied().collect();
+    let c = top.iter().filter(|f| is_seq_c_tag(&f.tag)).copied().collect();
+    (a, c)
+}
+
+pub(super) fn same_amount(x: &GenField, y: &GenField) -> bool {
+    match (amount_of(x), amount_of(y)) {
+        (Some(p), Some(q)) => p == q,
+        _ => false,
+    }
+}
+
+pub(super) fn ccys(fs: &[&GenField]) -> BTreeSet<String> {
+    fs.iter().map(|f| ccy_of(f)).collect()
+}
+
+pub fn expected(v: &RView) -> Expect {
     let mut e = Expect::default();
-    // until transcribed: every code is undetermined (no verdict)
-    e.undet("*");
+    let (a, c) = split_top(v);
+    let bs = v.seqs();
+
+    let a23 = get(&a, "23E");
+    let a_code = a23.map(code_of);
+    let rfdd = a_code.as_deref() == Some("RFDD");
+    let rtnd = a_code.as_deref() == Some("RTND");
+    let any_b = |pat: &str| bs.iter().any(|b| has(b, pat));
+    let all_b = |pat: &str| !bs.is_empty() && bs.iter().all(|b| has(b, pat));
+
+    // Sequence C has a mandatory first field 32B. A generated message may carry 19/71F/71G/53a after the
+    // last transaction without it; whether "sequence C is present" is then not settled by the documentation.
+    let c_32b = get(&c, "32B");
+    let c_stray = c_32b.is_none() && !c.is_empty();
+    // ... and a 71F/71G written there without 32B/19 in front of it is textually indistinguishable from the
+    // 71F/71G of the last transaction when that transaction has room for it
+    let tail_ambiguous = c_32b.is_none()
+        && !has(&c, "19")
+        && match bs.last() {
+            Some(l) => {
+                (has(&c, "71F") && !has(l, "71F") && !has(l, "71G") && !has(l, "36"))
+                    || (!has(&c, "71F") && has(&c, "71G") && !has(l, "71G") && !has(l, "36"))
+            }
+            None => false,
+        };
+    if tail_ambiguous {
+        e.undet("D79");
+        e.undet("C02");
+        e.undet("C96");
+    }
+
+    // C1 (C75): 23E in A = RFDD or 23E absent from A => 23E in every B; 23E in A with another code => in no B
+    match a23 {
+        Some(_) if !rfdd => e.must_if(any_b("23E"), "C75"),
+        _ => e.must_if(!all_b("23E"), "C75"),
+    }
+    // C2 (C76): creditor 50a A/K either in A or in every B; never both, never neither
+    let cred_a = has(&a, "50[AK]");
+    e.must_if((cred_a && any_b("50[AK]")) || (!cred_a && !all_b("50[AK]")), "C76");
+    // C3 (D73): 21E, 26T, 52a, 71A, 77B, 50a C/L: in A or in B occurrences, not both
+    for pat in ["21E", "26T", "52*", "71A", "77B", "50[CL]"] {
+        e.must_if(has(&a, pat) && any_b(pat), "D73");
+    }
+    // C4 (D77): 21E => 50a A/K in the same sequence (occurrence)
+    e.must_if(has(&a, "21E") && !cred_a, "D77");
+    for b in bs.iter() {
+        e.must_if(has(b, "21E") && !has(b, "50[AK]"), "D77");
+    }
+    // C5 (C82): 72 present iff 23E of A is RTND
+    e.must_if(rtnd != has(&a, "72"), "C82");
+    // C6 (D79): 71F in some B <=> 71F in C; same for 71G
+    for t in ["71F", "71G"] {
+        if !tail_ambiguous {
+            e.must_if(any_b(t) != has(&c, t), "D79");
+        }
+    }
+    for b in bs.iter() {
+        if let (Some(x33), Some(x32)) = (get(b, "33B"), get(b, "32B")) {
+            // C7 (D21): currency or amount or both differ between 33B and 32B
+            e.must_if(ccy_of(x33) == ccy_of(x32) && same_amount(x33, x32), "D21");
+            // C8 (D75): different currencies => 36 mandatory; same => not allowed
+            if ccy_of(x33) != ccy_of(x32) {
+                e.must_if(!has(b, "36"), "D75");
+            } else {
+                e.must_if(has(b, "36"), "D75");
+            }
+        } else {
+            // C8: no 33B => 36 not allowed
+            e.must_if(has(b, "36"), "D75");
+        }
+    }
+    // C9 (D80), C10 (C01)
+    let b_amounts: Vec<DecStr> = bs.iter().filter_map(|b| get(b, "32B").and_then(amount_of)).collect();
+    let total = sum(&b_amounts);
+    if let Some(s) = c_32b {
+        if let Some(sa) = amount_of(s) {
+            let eq = scaled(&sa) == total;
+            e.must_if(eq == has(&c, "19"), "D80");
+        }
+    }
+    if let Some(f19) = get(&c, "19") {
+        if let Some(x) = amount_of(f19) {
+            e.must_if(scaled(&x) != total, "C01");
+        }
+    }
+    // C11 (C02): one currency over all 32B (B and C); over all 71G (B and C); over all 71F (B and C)
+    let mut g32: Fs = bs.iter().filter_map(|b| get(b, "32B")).collect();
+    g32.extend(c_32b);
+    let mut g71g: Fs = bs.iter().filter_map(|b| get(b, "71G")).collect();
+    g71g.extend(get(&c, "71G"));
+    let mut g71f: Fs = bs.iter().filter_map(|b| get(b, "71F")).collect();
+    g71f.extend(get(&c, "71F"));
+    if !tail_ambiguous {
+        if ccys(&g32).len() > 1 || ccys(&g71g).len() > 1 || ccys(&g71f).len() > 1 {
+            e.must("C02");
+        } else {
+            // handbook: "the currency code in fields 32B and 71G in sequences B and C must be the same for all
+            // occurrences of these fields"; the library's rule texts state it per field. Whether a 71G currency
+            // that differs from the 32B currency violates the rule is not settled.
+            let mut both = ccys(&g32);
+            both.extend(ccys(&g71g));
+            if both.len() > 1 {
+                e.undet("C02");
+            }
+        }
+    } else if ccys(&g32).len() > 1 {
+        e.must("C02");
+    }
+    // C12 (C96)
+    if rfdd {
+        // in B: 21E, 50a A/K, 52a, 71F, 71G not allowed; sequence C not allowed
+        for b in bs.iter() {
+            for pat in ["21E", "50[AK]", "52*", "71F", "71G"] {
+                e.must_if(has(b, pat), "C96");
+            }
+        }
+        e.must_if(c_32b.is_some(), "C96");
+        // a 71F/71G at the end belongs either to the last B (not allowed) or to sequence C (not allowed)
+        e.must_if(tail_ambiguous, "C96");
+        if c_stray {
+            e.undet("C96");
+        }
+    } else {
+        // 21R not allowed in A; sequence C mandatory
+        e.must_if(has(&a, "21R"), "C96");
+        if c_stray {
+            e.undet("C96");
+        } else {
+            e.must_if(c_32b.is_none(), "C96");
+        }
+    }
+    // field 23E: T47 code lists per sequence, D81 narrative only with OTHR
+    if let Some(x) = a23 {
+        e.must_if(!VALID_23E_A.contains(&code_of(x).as_str()), "T47");
+        e.must_if(has_info(x) && code_of(x) != "OTHR", "D81");
+    }
+    for b in bs.iter() {
+        if let Some(x) = get(b, "23E") {
+            e.must_if(!VALID_23E_B.contains(&code_of(x).as_str()), "T47");
+            e.must_if(has_info(x) && code_of(x) != "OTHR", "D81");
+        }
+    }
     e
 }
 
 pub fn content_hook(tag: &str, src: &mut crate::choice::Src) -> Option<String> {
-    let _ = (tag, src);
-    None
+    match tag {
+        // one dominant currency; amounts such that the sum over 1..3 transactions often equals, or misses by
+        // one unit or one cent, the settlement amount / field 19 drawn from the same pool
+        "32B" | "33B" => {
+            if src.chance(1, 12) {
+                // a three-decimal currency: amounts that differ by less than one hundredth
+                return Some(format!("KWD{}", src.pick(&["100,", "100,001", "100,005", "100,"])));
+            }
+            let c = *src.pick(&["USD", "USD", "USD", "USD", "USD", "EUR"]);
+            let a = *src.pick(&["100,", "100,", "100,", "200,", "300,", "200,01", "199,99", "50,", "100,00"]);
+            Some(format!("{c}{a}"))
+        }
+        "19" => Some(src.pick(&["100,", "200,", "300,", "200,01", "199,99", "400,", "299,99", "150,"]).to_string()),
+        "71F" | "71G" => {
+            let c = *src.pick(&["USD", "USD", "USD", "EUR"]);
+            let a = *src.pick(&["1,", "2,50", "10,"]);
+            Some(format!("{c}{a}"))
+        }
+        "23E" => {
+            let c = *src.pick(&["AUTH", "NAUT", "OTHR", "RFDD", "RFDD", "RTND", "RTND", "ZZZZ"]);
+            if src.chance(1, 4) { Some(format!("{c}/INFO")) } else { Some(c.to_string()) }
+        }
+        _ => None,
+    }
 }
